@@ -382,6 +382,10 @@ impl Session {
                 self.quiesce();
                 crate::suite_crash::dir_check(self)
             }
+            b'E' => match self.db().get_descriptor(DatabaseDescriptor::Stats) {
+                Ok(s) => format!("stats:{}", s.len()),
+                Err(e) => err_class(&e),
+            },
             b'T' => {
                 let n: Vec<String> = (0..7)
                     .map(|l| {
